@@ -224,7 +224,7 @@ Proof. exact xattr_order_settles. Qed.
    a file with the two xattrs user.a, user.b converts to the image with
    user.b, user.a and back, the two archives differ — period 2. *)
 Theorem conv_fixpoint_old_refuted :
-  Forall entry_ok osc_a /\ Forall img_shape osc_a /\
+  Forall entry_ok osc_a /\ Forall img_shape osc_a /\ settled [] osc_a /\
   convert_old osc_a = RA_Ok osc_b /\ convert_old osc_b = RA_Ok osc_a /\
   write_archive_old osc_b <> write_archive_old osc_a.
 Proof. exact old_sqfs2tar_oscillates. Qed.
